@@ -1,0 +1,72 @@
+//go:build verif
+
+package collect
+
+// Verification hooks for the manual (sequential) collector driver of properties C01/C02/C03/C07.
+// They only export unexported functions and fields of the collector; no behaviour lives here.
+// With the `verif` build tag off this file is not compiled.
+
+import (
+	"context"
+	"time"
+
+	"github.com/honeycombio/refinery/types"
+)
+
+// VerifC01NumWorkers returns the number of collector workers created by Start.
+func (i *InMemCollector) VerifC01NumWorkers() int { return len(i.workers) }
+
+// VerifC01WorkerForTrace exports getWorkerIDForTrace.
+func (i *InMemCollector) VerifC01WorkerForTrace(traceID string) int {
+	return i.getWorkerIDForTrace(traceID)
+}
+
+// VerifC01Park parks worker w through its existing pause channel (the send returns once the
+// worker goroutine has received the signal, i.e. it is blocked and owns nothing). The returned
+// function resumes it.
+func (i *InMemCollector) VerifC01Park(w int) (resume func()) {
+	ch := make(chan struct{})
+	i.workers[w].pause <- ch
+	return func() { close(ch) }
+}
+
+// VerifC01ProcessSpan exports CollectorWorker.processSpan (worker must be parked).
+func (i *InMemCollector) VerifC01ProcessSpan(w int, sp *types.Span) {
+	i.workers[w].processSpan(context.Background(), sp)
+}
+
+// VerifC01SendExpired exports CollectorWorker.sendExpiredTracesInCache (worker must be parked).
+func (i *InMemCollector) VerifC01SendExpired(w int, now time.Time) {
+	i.workers[w].sendExpiredTracesInCache(context.Background(), now)
+}
+
+// VerifC01SendEarly exports CollectorWorker.sendTracesEarly (worker must be parked).
+func (i *InMemCollector) VerifC01SendEarly(w int, bytes int) {
+	i.workers[w].sendTracesEarly(context.Background(), bytes)
+}
+
+// VerifC01Buffer exports the traces currently buffered by worker w (worker must be parked).
+func (i *InMemCollector) VerifC01Buffer(w int) []*types.Trace {
+	return i.workers[w].cache.GetAll()
+}
+
+// VerifC01CheckTrace exports the worker's decision-cache CheckTrace answer.
+func (i *InMemCollector) VerifC01CheckTrace(w int, traceID string) (kept bool, found bool) {
+	r, _, ok := i.workers[w].sampleCache.CheckTrace(traceID)
+	if !ok {
+		return false, false
+	}
+	return r.Kept(), true
+}
+
+// VerifC01ReloadPending reports whether worker w has an unconsumed reload signal.
+func (i *InMemCollector) VerifC01ReloadPending(w int) bool { return len(i.workers[w].reload) > 0 }
+
+// VerifC01SamplerCount exports the number of samplers cached by worker w (worker must be parked).
+func (i *InMemCollector) VerifC01SamplerCount(w int) int { return len(i.workers[w].datasetSamplers) }
+
+// VerifC01Barrier puts tr on the tracesToSend channel. The driver uses a marker trace to learn
+// that the single sender goroutine has finished everything queued before it.
+func (i *InMemCollector) VerifC01Barrier(tr *types.Trace) {
+	i.tracesToSend <- sendableTrace{Trace: tr}
+}
